@@ -166,7 +166,7 @@ use flacenc::source::{Fill, Source};
 pub struct VarSource {
     pub samples: Vec<i32>, pub ch: usize, pub bps: usize, pub rate: usize,
     pub pos: usize, pub bytes_mode: bool, pub hint: bool,
-    pub fail_at: Option<usize>, pub reads: usize,
+    pub fail_at: Option<usize>, pub reads: usize, pub hint_extra: usize,
 }
 impl Source for VarSource {
     fn channels(&self) -> usize { self.ch }
@@ -190,7 +190,7 @@ impl Source for VarSource {
         self.pos += n;
         Ok(n)
     }
-    fn len_hint(&self) -> Option<usize> { if self.hint { Some(self.samples.len() / self.ch) } else { None } }
+    fn len_hint(&self) -> Option<usize> { if self.hint { Some(self.samples.len() / self.ch + self.hint_extra) } else { None } }
 }
 
 pub fn gen_dlv(seed: u64, n: usize, out: &mut String) {
@@ -212,7 +212,10 @@ pub fn gen_dlv(seed: u64, n: usize, out: &mut String) {
         let (rate, ch, bps, bs, s) = gen_input(&mut r, true);
         c.bs = bs;
         let fill = if r.chance(1, 2) { "i" } else { "b" };
-        let hint = r.below(2);
+        // VERIF_DLV_LYING_HINT=1 (set by the C20 check only): 1 case in 6 has a source whose length hint is WRONG (5 more samples
+        // than it delivers); the model is not consulted for those, the feature builds are compared with each other
+        let lying = std::env::var("VERIF_DLV_LYING_HINT").map_or(false, |v| v == "1");
+        let hint = if lying && r.chance(1, 6) { 2 } else { r.below(2) };
         let th = match r.below(6) { 0 | 1 => "s".to_string(), 2 => "m1".into(), 3 => format!("m{}", 2 + r.below(6)), 4 => "m16".into(), _ => format!("e{}", 1 + r.below(5)) };
         writeln!(out, "DLV d{} {}{}{} {} {} {} {} {} {}", i, fill, hint, th, c.encode(), rate, ch, bps, bs, sig::fmt_samples(&s)).unwrap();
     }
@@ -224,7 +227,7 @@ pub fn run_dlv(id: &str, rest: &str) -> String {
     let (mode, rest2) = rest.split_once(' ').unwrap();
     let mut c = parse(rest2);
     let mb = mode.as_bytes();
-    let bytes_mode = mb[0] == b'b'; let hint = mb[1] == b'1';
+    let bytes_mode = mb[0] == b'b'; let hint = mb[1] != b'0'; let hint_extra = if mb[1] == b'2' { 5 } else { 0 };
     let th = &mode[2..];
     let _g = ENV_LOCK.lock().unwrap_or_else(|e| e.into_inner());
     std::env::remove_var("FLACENC_WORKERS");
@@ -232,7 +235,7 @@ pub fn run_dlv(id: &str, rest: &str) -> String {
     else if th.starts_with('e') { c.cfg.mt = true; c.cfg.workers = None; std::env::set_var("FLACENC_WORKERS", &th[1..]); }
     else { c.cfg.mt = false; }
     let cfg = match c.cfg.to_encoder().into_verified() { Ok(v) => v, Err(_) => return format!("{} err-config", id) };
-    let src = VarSource { samples: c.samples.clone(), ch: c.ch, bps: c.bps, rate: c.rate, pos: 0, bytes_mode, hint, fail_at: None, reads: 0 };
+    let src = VarSource { samples: c.samples.clone(), ch: c.ch, bps: c.bps, rate: c.rate, pos: 0, bytes_mode, hint, fail_at: None, reads: 0, hint_extra };
     let r = flacenc::encode_with_fixed_block_size(&cfg, src, c.bs);
     std::env::remove_var("FLACENC_WORKERS");
     match r {
@@ -247,7 +250,7 @@ pub fn run_dlv(id: &str, rest: &str) -> String {
 // ---------------------------------------------------------------------------------------
 // FAIL: a user sink that fails at its k-th call while a stream is written.
 // Case: FAIL <id> <kspec> <s|m> <cfg> <rate> <ch> <bps> <bs> <samples>
-//   kspec = a<k> (absolute call index) | p<permille> (k = total_calls * permille / 1000)
+//   kspec = a<k> (absolute call index) | p<permille> (k = total_calls * permille / 1000); A<k> / P<permille>: the sink fails only once
 use crate::usersink::UserSink;
 
 pub fn gen_fail(seed: u64, n: usize, out: &mut String) {
@@ -262,6 +265,8 @@ pub fn gen_fail(seed: u64, n: usize, out: &mut String) {
         let mode0 = if r.chance(1, 3) { "m" } else { "s" };
         for q in 0..6 {
             let kspec = match r.below(4) { 0 => format!("a{}", r.below(60)), 1 => "p1000".to_string(), _ => format!("p{}", r.below(1000)) };
+            // upper case: the sink fails only ONCE (a transient error; later operations would be accepted)
+            let kspec = if r.chance(1, 2) { kspec.to_uppercase() } else { kspec };
             // half of the cases write the whole stream, the other half one component directly to the failing sink
             let mode = if q % 2 == 0 { mode0.to_string() } else {
                 match r.below(7) { 6 => format!("x{}", 1 + r.below(3)), 0 => format!("f{}", r.below(4)), 1 => format!("h{}", r.below(4)),
@@ -279,8 +284,9 @@ fn fail_one<T: BitRepr>(id: &str, comp: &T, kspec: &str) -> String {
     let mut first = ByteSink::new();
     let reference = match comp.write(&mut first) { Ok(()) => crate::s_hist::fnv_bytes(first.as_slice()), Err(_) => "err".to_string() };
     let total = probe.ops.len();
-    let k = if kspec.starts_with('a') { kspec[1..].parse::<usize>().unwrap() } else { total * kspec[1..].parse::<usize>().unwrap() / 1000 };
-    let mut sink = UserSink::new(Some(k));
+    let once = kspec.starts_with('A') || kspec.starts_with('P');
+    let k = if kspec.starts_with('a') || kspec.starts_with('A') { kspec[1..].parse::<usize>().unwrap() } else { total * kspec[1..].parse::<usize>().unwrap() / 1000 };
+    let mut sink = UserSink::new(Some(k)); sink.once = once;
     let r = comp.write(&mut sink);
     let verdict = match r {
         Ok(()) => "ok".to_string(),
